@@ -188,6 +188,10 @@ fn ips(family: &str) -> (IpAddr, IpAddr) {
     match family {
         "v4" => ("10.0.0.1".parse().unwrap(), "10.0.0.2".parse().unwrap()),
         "v6" => ("fd00::1".parse().unwrap(), "fd00::2".parse().unwrap()),
+        // pairs of different addresses that embed the same IPv4 address
+        "v6-mapped-vs-compatible" => ("::ffff:10.0.0.1".parse().unwrap(), "::10.0.0.1".parse().unwrap()),
+        "v4-vs-v6-mapped" => ("10.0.0.1".parse().unwrap(), "::ffff:10.0.0.1".parse().unwrap()),
+        "v6-loopback-vs-mapped" => ("::1".parse().unwrap(), "::ffff:0.0.0.1".parse().unwrap()),
         _ => ("10.0.0.1".parse().unwrap(), "fd00::2".parse().unwrap()),
     }
 }
@@ -255,11 +259,17 @@ pub fn run(tier: Tier, rep: &mut Report) {
         Tier::Quick => vec![
             ("v4", vec![1_000, 299_000, 300_000, 599_000, 600_000, 601_000]),
             ("v6", vec![300_000, 599_000, 600_000, 601_000]),
+            ("v6-mapped-vs-compatible", vec![600_000, 601_000]),
+            ("v4-vs-v6-mapped", vec![600_000, 601_000]),
+            ("v6-loopback-vs-mapped", vec![600_000, 601_000]),
         ],
         Tier::Thorough => vec![
             ("v4", vec![500, 1_000, 299_000, 300_000, 599_000, 600_000, 601_000]),
             ("v6", vec![500, 1_000, 299_000, 300_000, 599_000, 600_000, 601_000]),
             ("mixed", vec![1_000, 299_000, 300_000, 599_000, 600_000, 601_000]),
+            ("v6-mapped-vs-compatible", vec![300_000, 599_000, 600_000, 601_000]),
+            ("v4-vs-v6-mapped", vec![300_000, 599_000, 600_000, 601_000]),
+            ("v6-loopback-vs-mapped", vec![300_000, 599_000, 600_000, 601_000]),
         ],
     };
     let mut all_closed = true;
